@@ -855,6 +855,30 @@ MAPS_VALID = [
 ]
 
 
+EDGE_VALID = [
+    "function f(o, s){ o[('k')] += s; return o }",
+    "function f(g, s){ g()[(0)] += s }",
+    "class K extends B { m(s){ super[('k')] += s } }",
+    "function f(o, s){ o[(`k`)] += s; (o)[('k')] += s; o[((1))] += s + 1 }",
+    "function f(o, s){ o[(null)] += s; o[(/re/)] += s; o[(true)] += s }",
+    "function f(b){ return ('a').concat(b) + (('x')).trim() + ((1)) + b }",
+    "function f(b){ return `${('a')}${b}` + `${(1)}` }",
+    "function f(b){ return String.prototype.concat.call(('a'), b) + String.prototype.concat.apply(('a'), [('b'), b]) }",
+    "function f(a, x){ return a?.b?.(x).trim() + a?.b.c?.(x).trim() + a?.[('k')]?.(x).trim() }",
+    "function f(a){ delete (a?.trim().c); delete a?.trim().c; delete ((a?.b.trim().c)); return a }",
+    "function f(x){ return trim?.(x) + substring?.(x, 1) + concat?.() }",
+    "function f(a, b){ return void a() + b + (void 0) + -1 + !0 + ~b + typeof a }",
+    "function f(a){ return `${'a' + 'b'}:${a}:${a.trim()}` + `${1 + 2}${a}` }",
+    "function f(l, u){ return p() + (l === 'es' ? u.a + u.b : l === 'fr' ? 'ami' : 'friend') + (l ? l ? a + b : c : d + e) }",
+    "function f(a, b){ 'ngInject'; 'use strict'; return a.name + b }",
+    "'use client'; 'use strict'; function f(a, b){ \"use asm\"; return a + b }",
+    "async function f(a){ const m = await import('a-module-specifier'); return import(a + 'x', { with: { type: 'application/json' } }) }",
+    "function f(o, s){ o[(s, 'k')] += s; o['a' + 'b'] += s; o[('a') + ('b')] += s }",
+    "function f(a, s){ (a)?.b.trim(); (a?.b).trim(); ((a?.b))?.trim(s) }",
+    "function f(s){ return ((s)).concat((s), ...(s), ...('ab')) + [...(s)] }",
+]
+
+
 def mal_requests(seed, n):
     """arbitrary text, token-level mutations of valid programs, odd file names, every failure mode of
     the source-map reader"""
@@ -868,6 +892,11 @@ def mal_requests(seed, n):
         g = r.fork()
         src = q['src']
         kind = g.below(10)
+        if i < len(EDGE_VALID):
+            # valid programs at the edges of the transforms' guards (parenthesised literals, chains under delete,
+            # optional calls on chain links ...): totality is about these as much as about garbage
+            out.append({"id": "mal-%d" % i, "cfg": q['cfg'] if i % 2 else DEFAULT_CFG, "src": EDGE_VALID[i], "file": "test.js", "files": {}, "tags": ['mal', 'edge-valid']})
+            continue
         if kind < 4:
             for _ in range(1 + g.below(3)):
                 src = mutate_text(g, src)
